@@ -22,4 +22,4 @@ run_one() {
   rm -rf "$S"
 }
 export -f run_one
-printf "%s\n" "${seeds[@]}" | xargs -P ${MATRIX_JOBS:-4} -I{} bash -c 'run_one {}'
+printf "%s\n" "${seeds[@]}" | xargs --process-slot-var=VERIF_SLOT -P ${MATRIX_JOBS:-4} -I{} bash -c 'run_one {}'
